@@ -208,7 +208,7 @@ func run(t *tape.Tape, cfg sim.Config, listen bool) (res sim.Result) {
 		k := t.Choose(len(r.insts))
 		in := r.insts[k]
 		fn := t.Choose(len(in.P.Funcs))
-		useRec := r.opts.rec && k != 2 && t.Chance(1, 8)
+		useRec := r.opts.rec && k != 2 && t.Chance(1, 3)
 		arg := int32(t.Choose(1000))
 		if useRec {
 			// a small depth returns, a huge one exhausts the stack; the same function objects see both
